@@ -344,7 +344,7 @@ class JsonTyper:
         if isinstance(e, ast.IfExp):
             a, b = self.of(e.body), self.of(e.orelse)
             out = jt(a['types'] | b['types'])
-            for k in ('items', 'properties', 'additional', 'unknown'):
+            for k in ('items', 'properties', 'additional', 'unknown', 'language'):
                 if k in a or k in b:
                     out[k] = a.get(k, b.get(k))
             return out
@@ -374,6 +374,19 @@ class JsonTyper:
         if isinstance(e, (ast.List, ast.Tuple)):
             its = [self.of(x) for x in e.elts]
             return jt({'array'}, items=its[0] if its else jt(set()))
+        if isinstance(e, ast.Call) and isinstance(e.func, ast.Name) and e.func.id == 'str' and len(e.args) == 1 and not e.keywords:
+            at = self.ti.infer(e.args[0])
+            if at[0] == 'opt':
+                at = at[1]      # str(x) of an Optional[Enum]: the None arm is the writer's own conditional
+            if at[0] == 'leaf' and self.ti.repo.has_cls(at[1]) and self.ti.repo.cls(at[1]).is_enum:
+                # the finite language of str(<enum member>), by folding __str__ over the members
+                from .fold import Folder
+                f = Folder(self.ti.repo)
+                try:
+                    lang = {f.str_of(m) for m in f.members(at[1])}
+                    return jt({'string'}, language=lang)
+                except Exception:  # noqa - language unknown, plain string
+                    return jt({'string'})
         t = self.ti.infer(e)
         return self.from_type(t, e)
 
@@ -419,6 +432,19 @@ def against_schema(j, node, resolve, path='') -> List[str]:
     extra = j['types'] - schema_types(node)
     if extra:
         out.append(f'{path or "value"}: writer produces {sorted(extra)}, schema allows {sorted(schema_types(node))}')
+    if 'enum' in node:
+        allowed = node['enum']
+        if 'null' in j['types'] and None not in allowed:
+            out.append(f'{path or "value"}: writer produces null (e.g. on a passed-out board), the schema enum {allowed} does not allow it')
+        if 'string' in j['types']:
+            if 'language' in j:
+                miss = sorted(x for x in j['language'] if x not in allowed)
+                if miss:
+                    out.append(f'{path or "value"}: writer produces {miss}, the schema enum {allowed} does not allow them')
+            else:
+                out.append(f'{path or "value"}: the schema restricts the value to {allowed} but the strings the writer produces are not a known finite set')
+        if ('integer' in j['types'] or 'boolean' in j['types']) and not any(isinstance(x, (int, bool)) for x in allowed):
+            out.append(f'{path or "value"}: writer produces numbers, the schema enum {allowed} has none')
     if 'array' in j['types'] and 'items' in j and 'items' in node:
         out += against_schema(j['items'], node['items'], resolve, path + '[]')
     if 'object' in j['types']:
